@@ -249,6 +249,18 @@ def decl_search():
         if got != (sorted(attrs), rtype):
             return {"confirmed": True, "input": {"statement": stmt}, "actual": {"attributes": got[0], "result type": got[1]}, "expected": {"attributes": sorted(attrs), "result type": rtype},
                     "how": "real parser; prefix of a function statement"}
+    # the `lower` option lower-cases code, never the text of a character literal
+    src = ("module m\n  CHARACTER(LEN=*), PARAMETER :: Greeting = \"Hello, World <Mr. X>\"\n  character(len=8) :: Tag\n  PARAMETER (Tag = 'MiXeD')\ncontains\n"
+           "  FUNCTION Answer() BIND(C, NAME=\"Get_Answer_C\") RESULT(R)\n    INTEGER :: R\n    R = 42\n  END FUNCTION Answer\nend module m\n")
+    try:
+        f = realrun.parse_source(src, lower=True)
+        m = f.modules[0]
+        got = {"greeting": m.variables[0].initial, "tag": m.variables[1].initial, "bind": m.functions[0].bindC}
+    except Exception as ex:
+        got = f"{type(ex).__name__}: {ex}"
+    want = {"greeting": '"Hello, World <Mr. X>"', "tag": "'MiXeD'", "bind": 'c, name="Get_Answer_C"'}
+    if got != want:
+        return {"confirmed": True, "input": {"source": src, "lower": True}, "actual": got, "expected": want, "how": "real parser with the option lower: true; literals of initial values, PARAMETER statements and bind names"}
     # the suffix of a function statement: RESULT and BIND in either order; the binding label is the text inside bind(...) and nothing else
     for stmt, bindc, res in (('function f(x) bind(c, name="f_c") result(rr)', 'c, name="f_c"', "rr"), ('function f(x) result(rr) bind(c, name="f_c")', 'c, name="f_c"', "rr"),
                              ("function f(x) bind(c) result(rr)", "c", "rr"), ("function f(x) result(rr)", None, "rr"), ("function f(x) bind(C, name='q(1)')", "C, name='q(1)'", "f")):
